@@ -300,6 +300,9 @@ type c18Stats struct {
 	seen                  map[string]bool
 	deferred              []c18Deferred
 	draining              bool
+	lastFailed            bool           // the last input run failed in some decoder (reported or a repetition of a reported failure)
+	hangs                 map[string]int // per decoder: calls that did not return; each leaves a goroutine burning a core
+	Skipped               int
 }
 
 // Inputs whose iteration count may have been changed are kept for the end of the sweep (runDeferred): a decoder that is
@@ -329,7 +332,17 @@ type c18Deferred struct {
 
 func (s *c18Stats) runNow(it *corpusItem, mut string, b []byte, exempt bool) {
 	s.Inputs++
+	s.lastFailed = false
+	if s.hangs == nil {
+		s.hangs = map[string]int{}
+	}
 	for name, fn := range decodersFor(it.Class) {
+		if s.hangs[name] >= 3 {
+			// this decoder has not returned three times already (a violation is reported for each distinct item); every
+			// further hang costs 3 s and leaves another goroutine spinning, so the decoder is left out from here on
+			s.Skipped++
+			continue
+		}
 		s.Calls++
 		done := make(chan string, 1)
 		a0 := allocBytes()
@@ -357,6 +370,10 @@ func (s *c18Stats) runNow(it *corpusItem, mut string, b []byte, exempt bool) {
 			}
 		}
 		if fail != nil {
+			s.lastFailed = true
+			if fail.Kind == "hang" {
+				s.hangs[name]++
+			}
 			fail.Item, fail.Decoder, fail.Mut = it.Name, name, mut
 			key := fail.Item + "|" + fail.Decoder + "|" + fail.Kind + "|" + digitsRe.ReplaceAllString(strings.SplitN(fail.Detail, "\n", 2)[0], "N")
 			if s.seen == nil {
@@ -608,7 +625,74 @@ func c18run(args []string) error {
 				perFamily["resize"]++
 			}
 		}
+		// BER segmentation: a primitive string value (OCTET STRING, or the [0] IMPLICIT OCTET STRING of encrypted content) is
+		// re-encoded in the constructed form BER allows for it - one segment, two segments, empty segments in front / behind /
+		// alone, no segment, nested constructed segments, a segment of another type, definite and indefinite length, a missing
+		// end-of-contents - and every enclosing length re-encoded. The BER-reading decoders (PKCS#7) have to handle or refuse
+		// these, the DER-reading ones to refuse them; none may hang on them.
+		for ni, nd := range nds {
+			tb := orig[nd.Tag-1]
+			if nd.Len < 0 || nd.Cons || nd.LenOff != nd.Tag+1 || !(tb == 0x04 || tb == 0x80) {
+				continue
+			}
+			cs := nd.LenOff - 1 + nd.LenSz
+			c := orig[cs : cs+nd.Len]
+			tlv := func(tag byte, parts ...[]byte) []byte {
+				body := bytes.Join(parts, nil)
+				return append(append([]byte{tag}, derLen(len(body))...), body...)
+			}
+			ind := func(tag byte, eoc bool, parts ...[]byte) []byte {
+				b := append([]byte{tag, 0x80}, bytes.Join(parts, nil)...)
+				if eoc {
+					b = append(b, 0, 0)
+				}
+				return b
+			}
+			seg, empty, ct := tlv(0x04, c), []byte{0x04, 0x00}, tb|0x20
+			half := len(c) / 2
+			forms := map[string][]byte{
+				"one segment":                      tlv(ct, seg),
+				"two segments":                     tlv(ct, tlv(0x04, c[:half]), tlv(0x04, c[half:])),
+				"a segment and an empty one":       tlv(ct, seg, empty),
+				"an empty segment and a segment":   tlv(ct, empty, seg),
+				"an empty segment between two":     tlv(ct, tlv(0x04, c[:half]), empty, tlv(0x04, c[half:])),
+				"only an empty segment":            tlv(ct, empty),
+				"only empty segments":              tlv(ct, empty, empty, empty),
+				"no segment":                       tlv(ct),
+				"nested constructed segment":       tlv(ct, tlv(0x24, seg)),
+				"a NULL among the segments":        tlv(ct, seg, []byte{0x05, 0x00}),
+				"indefinite, one segment":          ind(ct, true, seg),
+				"indefinite, segment and empty":    ind(ct, true, seg, empty),
+				"indefinite, empty and segment":    ind(ct, true, empty, seg),
+				"indefinite, only empty":           ind(ct, true, empty),
+				"indefinite, no segment":           ind(ct, true),
+				"indefinite nested in indefinite":  ind(ct, true, ind(0x24, true, seg, empty)),
+				"indefinite without end-of-contents": ind(ct, false, seg),
+				"indefinite segment inside definite": tlv(ct, ind(0x24, true, seg)),
+			}
+			for name, f := range forms {
+				if m := rebuildWhole(orig, nds, ni, f); m != nil {
+					st.run(it, fmt.Sprintf("string at %d (%d bytes) in the constructed form: %s", nd.Tag-1, nd.Len, name), m, inExempt(it, nd.Tag-1, cs+nd.Len))
+					perFamily["segmented"]++
+				}
+			}
+		}
 		if it.ASN1 {
+			// well-terminated indefinite nesting around a small value and around the item: (c 80)^d value (00 00)^d for the
+			// constructed tags 30 / a0 / 24 / 31, with increasing depth; the walk stops at the first depth that fails, because a
+			// decoder that reads every level more than once multiplies its work with every level
+			for _, tail := range [][]byte{{0x04, 0x01, 0x55}, orig} {
+				for _, tag := range []byte{0x30, 0xa0, 0x24, 0x31} {
+					for _, depth := range []int{1, 2, 3, 4, 8, 12, 16, 20, 24, 28, 32, 100, 1000} {
+						b := append(append(bytes.Repeat([]byte{tag, 0x80}, depth), tail...), make([]byte, 2*depth)...)
+						st.run(it, fmt.Sprintf("value of %d bytes inside %d well-terminated indefinite-length levels of tag %02x", len(tail), depth, tag), b, false)
+						perFamily["balanced"]++
+						if st.lastFailed {
+							break
+						}
+					}
+				}
+			}
 			// deep nesting in front of the item (BER, definite and indefinite lengths)
 			for _, depth := range []int{100, 10000} {
 				st.run(it, fmt.Sprint("nested SEQUENCE depth ", depth, " (indefinite)"), append(bytes.Repeat([]byte{0x30, 0x80}, depth), orig...), false)
@@ -634,10 +718,9 @@ func c18run(args []string) error {
 						ch := append([]byte{0x30}, derLen(len(b))...)
 						b = append(append(append([]byte{0x30}, derLen(len(ch))...), ch...), b...)
 					}
-					before := len(st.Fails)
 					st.run(it, fmt.Sprintf("overlapping nesting depth %d: each SEQUENCE declares only the header of a component that claims the %d-byte rest", depth, len(tail)), b, false)
 					perFamily["overlap"]++
-					if len(st.Fails) > before {
+					if st.lastFailed {
 						break
 					}
 				}
@@ -684,7 +767,7 @@ func c18run(args []string) error {
 		sf.Close()
 	}
 	st.runDeferred()
-	out := map[string]interface{}{"inputs": st.Inputs, "calls": st.Calls, "exempt_slow": st.Exempt, "fails": st.Fails, "families": perFamily,
+	out := map[string]interface{}{"inputs": st.Inputs, "calls": st.Calls, "exempt_slow": st.Exempt, "skipped_after_hangs": st.Skipped, "fails": st.Fails, "families": perFamily,
 		"items": len(items), "short_strings": nshort}
 	b, _ := json.Marshal(out)
 	return os.WriteFile(args[3], b, 0644)
@@ -748,8 +831,13 @@ func childEnd(nds []tlvNode, ni int, cs int) int {
 // replace the content of node ni by r and re-encode the length of ni and of every enclosing node (DER lengths)
 func rebuild(orig []byte, nds []tlvNode, ni int, r []byte) []byte {
 	nd := nds[ni]
+	return rebuildWhole(orig, nds, ni, append(append(append([]byte(nil), orig[nd.Tag-1:nd.LenOff-1]...), derLen(len(r))...), r...))
+}
+
+// replace the whole TLV of node ni (tag, length and content) by cur and re-encode the length of every enclosing node
+func rebuildWhole(orig []byte, nds []tlvNode, ni int, cur []byte) []byte {
+	nd := nds[ni]
 	cs := nd.LenOff - 1 + nd.LenSz
-	cur := append(append(append([]byte(nil), orig[nd.Tag-1:nd.LenOff-1]...), derLen(len(r))...), r...)
 	lo, hi := nd.Tag-1, cs+nd.Len // the byte range of orig that cur replaces
 	for a := ni - 1; a >= 0; a-- {
 		an := nds[a]
